@@ -42,6 +42,7 @@ def step (line : String) : String :=
   | id :: _cls :: "rtrakp1" :: args => s!"{id} {evalRtRakp1 args}"
   | id :: _cls :: "send" :: args => s!"{id} {evalSend args}"
   | id :: _cls :: "slsend" :: args => s!"{id} {evalSlSend args}"
+  | id :: _cls :: "slhist" :: args => s!"{id} {evalSlHist args}"
   | id :: _cls :: "hs" :: args => s!"{id} {evalHs args}"
   | id :: _cls :: "suite" :: args => s!"{id} {evalSuite args}"
   | id :: _cls :: "hist" :: args => s!"{id} {evalHist args}"
